@@ -15,7 +15,10 @@ MANIFEST = dict(
          'reports and enc_body vs. pydsdl.serialize on every run; the extracted specification vs. the generated serializers of random '
          'valid namespaces (every primitive kind/width/cast mode, arrays, nested sealed/delimited, unions, services) under an option '
          'matrix (target_endianness any/little/big, serialization asserts, sanitizer builds, C++ standards, Python), with buffers '
-         'zero/0xFF/random filled and capacities max, max-1, 0.',
+         'zero/0xFF/random filled and capacities max, max-1, 0.'
+         ' Template bodies: tools/translators/gen_codec_tpl.py rescans the C/C++/Python (de)serialization.j2 macro structure on every '
+         'run (fail closed); Codec/TplTie.v proves it equal to the reviewed Codec/TplTieData.v and the C primitive/array case splits equal '
+         'to the walker\'s.',
     note='Trusted: Coq kernel; extraction (ExtrOcamlBasic only) + ocaml/codec_driver.ml; pydsdl front end (AST dumped by astdump.py); '
          'harness drivers.  Float16 conversion model is Prims/F16.v (owned by C14, swept bit-for-bit against the C code there).',
     design='§5 C02')
